@@ -267,7 +267,7 @@ def _translate_unchanged(path, workdir, result):
     return wrap_bool(tm.Implies(pre, tm.Eq(S(result), p)))
 
 
-@contract("stepup/core/path.py::translate", props=["C20"])
+@contract("stepup/core/path.py::translate", props=["C20", "C08"])
 class translate:
     args = dict(path=ty.Str, workdir=ty.Str)
     env = PATH_ENV
